@@ -156,6 +156,49 @@ theorem nested_files_filtered (r : Bool) (n : String) (rest : List Entry) (h : h
     collectFiles r false (.file n :: rest) = collectFiles r false rest := by
   simp [collectFiles, h]
 
+/-! ### where the result goes -/
+
+/-- **`--pretend` writes nowhere**, whatever other destination option is given. -/
+theorem pretend_routes_nowhere (d : DestFlags) (name : String) (h : d.pretend = true) :
+    fileOut d name = .none := by
+  unfold fileOut baseOut
+  cases d.dir <;> simp [h]
+
+/-- `--stdout` (without `--pretend`) sends the result to standard output only. -/
+theorem stdout_route (d : DestFlags) (name : String) (hp : d.pretend = false) (hs : d.stdout = true) :
+    fileOut d name = .stdout := by
+  unfold fileOut baseOut
+  cases d.dir <;> simp [hp, hs]
+
+/-- `--dir D` sends the result to `D/<same file name>`; `--preserve` is carried over. -/
+theorem dir_route (d : DestFlags) (name dd : String) (hp : d.pretend = false) (hs : d.stdout = false)
+    (hd : d.dir = some dd) : fileOut d name = .path (some (dd ++ "/" ++ name)) d.preserve := by
+  unfold fileOut baseOut
+  simp [hp, hs, hd]
+
+/-- otherwise `--out F` names the file, and with neither the input file itself is the destination -/
+theorem out_or_inplace_route (d : DestFlags) (name : String) (hp : d.pretend = false) (hs : d.stdout = false)
+    (hd : d.dir = none) : fileOut d name = .path d.out d.preserve := by
+  unfold fileOut baseOut
+  simp [hp, hs, hd]
+
+/-- the four cases are all there is -/
+theorem route_cases (d : DestFlags) (name : String) :
+    fileOut d name = .none ∨ fileOut d name = .stdout ∨
+    (∃ dd, d.dir = some dd ∧ fileOut d name = .path (some (dd ++ "/" ++ name)) d.preserve) ∨
+    fileOut d name = .path d.out d.preserve := by
+  cases hp : d.pretend
+  · cases hs : d.stdout
+    · cases hd : d.dir with
+      | none => exact Or.inr (Or.inr (Or.inr (out_or_inplace_route d name hp hs hd)))
+      | some dd => exact Or.inr (Or.inr (Or.inl ⟨dd, rfl, dir_route d name dd hp hs hd⟩))
+    · exact Or.inr (Or.inl (stdout_route d name hp hs))
+  · exact Or.inl (pretend_routes_nowhere d name hp)
+
+example : fileOut { pretend := true, dir := some "o" } "a.png" = .none ∧
+    fileOut { dir := some "o", preserve := true } "a.png" = .path (some "o/a.png") true ∧
+    fileOut {} "a.png" = .path none false := by decide
+
 /-- Non-vacuity -/
 example : exitStatus [.skipped, .failed, .ok] = 0 ∧ exitStatus [.skipped, .failed] = 1 ∧ exitStatus [] = 3 ∧
     (cliToOptions { opt := some 3, zc := some 9 }).map (·.deflate) = some (.lib 9) := by decide
